@@ -19,10 +19,11 @@ from . import common, structure, trav, trav_plans, travcheck
 
 EAGER_MENU = [
     ("G1", {}), ("G2", {}), ("G3", {}), ("G6b", {}),
-    ("G1", {"nets": "net2 net1"}), ("G2", {"nets": "net3 net1 net2"}),
+    ("G1", {"nets": "net2 net1"}), ("G2", {"nets": "net3 net1 net2"}), ("G4f", {"nets": "net1"}), ("G4g", {}),
     ("G1", {"vm_strs": {"vm1": "only CentOS,Fedora\n", "vm2": "only Win10\n", "vm3": "only Ubuntu\n"}, "label": "G1-multivariant"}),
+    ("G2", {"vm_strs": {"vm1": "only Fedora\n", "vm2": "only Win10\n", "vm3": "only Ubuntu\n"}, "nets": "net1", "label": "G2-fedora"}),
 ]
-EAGER_THOROUGH = [("G4", {}), ("G4f", {}), ("G23", {}), ("G6", {}), ("G0", {}), ("G3", {"nets": "net2 net1 net4"})]
+EAGER_THOROUGH = [("G4", {}), ("G23", {}), ("G6", {}), ("G0", {}), ("G3", {"nets": "net2 net1 net4"})]
 
 
 def graph_monitor(run: Any) -> list[Any]:
@@ -97,10 +98,13 @@ def _shape_factory():
             n._setup_nodes, n._cleanup_nodes = {}, {}
         edges = []
         for i, j in itertools.combinations(range(len(nodes)), 2):
-            if symx.SymBool(name=f"edge_{i}_{j}"):
-                obj = nodes[j].objects[1] if len(nodes[j].objects) > 1 else nodes[j].objects[0]
-                nodes[j].descend_from_node(nodes[i], obj)
-                edges.append((i, j))
+            # an edge may be based on one or on two objects of the child (e.g. a vm and its image)
+            n_objs = symx.choose(3, f"edge_{i}_{j}")
+            for k in range(n_objs):
+                objs = nodes[j].objects[1:] or nodes[j].objects
+                nodes[j].descend_from_node(nodes[i], objs[k % len(objs)])
+            if n_objs:
+                edges.append((i, j, n_objs))
         g.parse_shared_root_from_object_roots(sc.param_dict())
         col.count("shapes")
         findings = [f for f in structure.wellformed(g, "shape", expanded=False) if "producers" not in f[0] and "vm objects" not in f[0]]
@@ -126,13 +130,15 @@ def replay_shape(data: dict[str, Any]) -> tuple[bool, str]:
     sc = trav.menu("G2", lazy=False, nets="net1")
     run = trav.prepare(symx.Engine(), sc, trav.Config())
     g = run.graph
-    nodes = [n for n in g.nodes if not n.is_shared_root()][: max([j for _, j in data["edges"]] + [3]) + 1]
+    nodes = [n for n in g.nodes if not n.is_shared_root()][: max([e[1] for e in data["edges"]] + [3]) + 1]
     g._nodes = list(nodes)
     for n in nodes:
         n._setup_nodes, n._cleanup_nodes = {}, {}
-    for i, j in data["edges"]:
-        obj = nodes[j].objects[1] if len(nodes[j].objects) > 1 else nodes[j].objects[0]
-        nodes[j].descend_from_node(nodes[i], obj)
+    for e in data["edges"]:
+        i, j, n_objs = (list(e) + [1])[:3]
+        for k in range(n_objs):
+            objs = nodes[j].objects[1:] or nodes[j].objects
+            nodes[j].descend_from_node(nodes[i], objs[k % len(objs)])
     g.parse_shared_root_from_object_roots(sc.param_dict())
     f = [x for x in structure.wellformed(g, "shape", expanded=False) if "producers" not in x[0] and "vm objects" not in x[0]]
     return bool(f), f[0][1] if f else "well formed"
@@ -148,7 +154,7 @@ def replay(data: dict[str, Any]) -> tuple[bool, str]:
 
 def run(ctx: common.Context) -> None:
     check_eager(ctx)
-    _shape["K"] = 5 if ctx.thorough else 4
+    _shape["K"] = 4 if ctx.thorough else 3
     exhausted, stats, collected, err = symx.explore_parallel(_shape_factory, seed=ctx.seed, split_depth=3, deadline=ctx.deadline(60, 400), min_tasks=8)
     ctx.add_stats(stats)
     counters = common.merge_collected(ctx, collected)
@@ -161,7 +167,7 @@ def run(ctx: common.Context) -> None:
         for what, cls, detail in c.violations:
             ctx.report(cls, what, detail, replay_shape)
     totals = travcheck.run_plans(ctx, plans(ctx.tier), 90 if not ctx.thorough else 700, replay_trav)
-    ctx.bounds = {"eager_menu": [f"{n} {kw}" for n, kw in EAGER_MENU + (EAGER_THOROUGH if ctx.thorough else [])], "symbolic_shape": {"nodes": _shape["K"], "edges": "every forward edge a solver variable"}, **{p["name"]: p["bounds"] for p in plans(ctx.tier)}}
+    ctx.bounds = {"eager_menu": [f"{n} {kw}" for n, kw in EAGER_MENU + (EAGER_THOROUGH if ctx.thorough else [])], "symbolic_shape": {"nodes": _shape["K"], "edges": "every forward edge absent or based on 1 or 2 objects (solver variable)"}, **{p["name"]: p["bounds"] for p in plans(ctx.tier)}}
     ctx.assumptions = ["selections come from a concrete menu of the shipped sample suite (the Cartesian parser cannot be executed on symbolic strings); other selections are outside the claim", "symbolic shape: real nodes of one parsed graph, their parsed edges removed"]
     ctx.coverage["counters"] = totals
     ctx.coverage["explanation"] = "structural oracle over graphs built by the real parsing code: concrete menu (eager), every lazily expanded graph reached under solver-chosen schedules, and a symbolic-edge family for the shared-root attachment"
